@@ -77,7 +77,7 @@ func (g *gen) genSet(typ string, depth int) *qset {
 	n := 1 + g.c.Choose(4, "nsel")
 	for i := 0; i < n && g.budget > 0; i++ {
 		g.budget--
-		switch g.c.Biased(8, 600, "sel-kind") {
+		switch []int{0, 0, 0, 0, 0, 0, 0, 0, 1, 1, 3, 3, 3, 3, 4}[g.c.Choose(15, "sel-kind")] {
 		case 1, 2: // inline fragment on the same type
 			set.frags = append(set.frags, &qfrag{on: typ, set: g.genSet(typ, depth+1)})
 			continue
@@ -184,7 +184,7 @@ func (g *gen) genSetPlain(typ string, depth int) *qset {
 		return g.genUnionSet(depth)
 	}
 	set := &qset{}
-	n := 1 + g.c.Choose(3, "nsel")
+	n := 1 + g.c.Choose(5, "nsel")
 	for i := 0; i < n; i++ {
 		s := g.genSelWith(typ, depth, true)
 		set.sels = append(set.sels, s)
